@@ -1,6 +1,6 @@
 """C10: check configuration (PROP) and MANIFEST texts (TEXT)."""
 PROP = {'n_quick': 70,
- 'n_thorough': 2500,
+ 'n_thorough': 2000,
  'audit': 14,
  'audit_maxlen': 1800,
  'release': True,
